@@ -408,6 +408,11 @@ func Finish(verifDir string, r *Result, tier string, seed int64, level string, r
 		cov["exhaustive"] = true
 	}
 	for k, v := range r.Extra {
+		switch k { // extras never replace a key the evidence schema gives a type to
+		case "evaluations", "distinct_nontrivial", "rule", "samples", "states", "transitions", "traces_validated_against_impl", "obligations", "discharged",
+			"checker_cmd", "trusted_base", "programs", "disagreements_checked", "explanation", "exhaustive", "observed", "known_findings_hit", "inconclusive":
+			k += "_detail"
+		}
 		cov[k] = v
 	}
 	ev := map[string]interface{}{
